@@ -218,8 +218,16 @@ def fuelFor (cs : List (Candle F)) : Nat := 16 + 2 * cs.length
 
 /-! ### `purge`: every name written by the tree -/
 
-partial def Ind.allNames (i : Ind F) : List String :=
-  i.name :: (i.subs.flatMap Ind.allNames ++ i.managed.flatMap fun (_, m) => m.allNames)
+mutual
+  def Ind.allNames : Ind F → List String
+    | .mk _ n _ _ _ subs managed => n :: (Ind.allNamesL subs ++ Ind.allNamesM managed)
+  def Ind.allNamesL : List (Ind F) → List String
+    | [] => []
+    | s :: r => s.allNames ++ Ind.allNamesL r
+  def Ind.allNamesM : List (String × Ind F) → List String
+    | [] => []
+    | (_, m) :: r => m.allNames ++ Ind.allNamesM r
+end
 
 def purgeNames (names : List String) (cs : List (Candle F)) : List (Candle F) :=
   cs.map fun c => { c with inds := names.foldl (fun d n => derase n d) c.inds,
